@@ -94,7 +94,7 @@ def p_c14(facts, rep, tier):
         "(io::Error, anyhow::Error, BucketExhaustion) is dropped or thrown away by a discarding consumer; R2: every CompleteIo has "
         "its `.result` checked (or is handed on whole) on every success path; R3: every spawned task's channel has a join_task on the "
         "paired receiver; R4: in the five mutating entry points the failure edge of every fallible repo call at or after an effect "
-        "passes a poisoning site (or the callee is proved self-poisoning), and Store::commit refuses when poisoned before starting a sync; R5: no wait/join is reachable without its request/spawn; R6: the I/O back-end builds an Ok completion only on the arm where the syscall result was classified as success, and the classifier says success only under `res == <expected length>`. "
+        "passes a poisoning site (or the callee is proved self-poisoning), and Store::commit refuses when poisoned before starting a sync; R5: no wait/join is reachable without its request/spawn; R6: the I/O back-end builds an Ok completion only on the arm where the syscall result was classified as success, and the classifier says success only under `res == <expected length>`; R7: every loop on the bucket-allocation path (allocate_bucket and what it calls) is iterator- or counter-driven with an exit on the counter, so running out of buckets ends in the error return. "
         "On-disk atomicity after a failure and liveness are not decided."
     )
     st = strands.Strands(facts)
@@ -104,6 +104,11 @@ def p_c14(facts, rep, tier):
     n4 = errflow.r4_error_exits_poison(facts, rep)
     n6 = errflow.r6_completion_source(facts, rep) + errflow.r6b_classifier(facts, rep)
     rep.floor("R6 obligations", n6, 5)
+    import termination
+
+    n7f, n7 = termination.bounded_region(facts, rep, ["nomt::bitbox::allocate_bucket"], "R7")
+    rep.floor("R7 functions on the bucket-allocation path", n7f, 4)
+    rep.floor("R7 loops on the bucket-allocation path", n7, 2)
     n_fn, n_eff, n_guard = guardfx.run(facts, rep, "C14")
     import syncorder
 
